@@ -326,6 +326,7 @@ const (
 	CtrlObjectTemplate        = "ObjectTemplate"
 	CtrlClusterObjectTemplate = "ClusterObjectTemplate"
 	CtrlPackage               = "Package"
+	CtrlClusterPackage        = "ClusterPackage"
 )
 
 // PhaseClass is the class the phase controllers serve.
@@ -364,6 +365,14 @@ func (e *Env) controller(kind string) reconciler {
 		if e.W.Pkg != nil {
 			env = e.W.Pkg.Env
 		}
+		c.SetEnvironment(&env)
+		return c
+	case CtrlClusterPackage:
+		if e.W.Pkg == nil {
+			panic("world: ClusterPackage controller needs World.Pkg")
+		}
+		c := pkgctrl.NewClusterPackageController(e.Client, e.Uncached, log, Scheme, &countingPuller{env: e.W.Pkg, h: e.hook}, nil, e.W.Pkg.HashModifier, nil)
+		env := e.W.Pkg.Env
 		c.SetEnvironment(&env)
 		return c
 	case CtrlPackage:
